@@ -111,12 +111,12 @@ Qed.
 
 Lemma f1_tables_facts f fd w :
   nth_error (fl_design fb) f = Some fd -> ff_window fd = Some w ->
-  Forall (fun dd => dd < nf fb) (win_deps w) /\
+  Forall (fun dd => isact fb dd = true) (win_deps w) /\
   (forall lv entry, In lv (ff_levels fd) -> In entry (lv_accepts lv) -> entry_ok fb (win_deps w) entry = true).
 Proof.
   intros Efd Ew. destruct (f1_tables fb FF f fd Efd) as [Htab _]. unfold tables_ok in Htab. rewrite Ew in Htab.
   apply andb_true_iff in Htab. destruct Htab as [Hlt Hent]. rewrite forallb_forall in Hlt, Hent. split.
-  - apply Forall_forall. intros dd Hdd. apply Nat.ltb_lt. now apply Hlt.
+  - apply Forall_forall. intros dd Hdd. now apply Hlt.
   - intros lv entry Hlv He. specialize (Hent lv Hlv). rewrite forallb_forall in Hent. now apply Hent.
 Qed.
 
@@ -152,15 +152,23 @@ Proof.
   - now rewrite (code_factor_plain f fd Ew).
 Qed.
 
+(** the shape part of [onehot]: complete rows, every cell a level *)
+Definition shape (q : tseq) : Prop :=
+  length q = nf fb /\ (forall f, f < nf fb -> length (nth f q []) = T fb) /\
+  (forall t f, t < T fb -> f < nf fb -> exists l, l < nlevels fb f /\ get_cell q f t = Some l).
+
+Lemma onehot_shape s q : onehot fb s q -> shape q.
+Proof. intros (A & B & C & _). repeat split; assumption. Qed.
+
 (** [factor_ok] of an F1 factor on a one-hot sequence: only the acceptance of
     the chosen level of a derived factor remains *)
-Lemma factor_ok_f1 s q f fd :
-  onehot fb s q -> nth_error (fl_design fb) f = Some fd ->
+Lemma factor_ok_shape q f fd :
+  shape q -> nth_error (fl_design fb) f = Some fd ->
   (factor_ok (code_sem fb) q f (code_factor fb f fd) = true <->
    forall w, ff_window fd = Some w ->
    forall t l0, t < T fb -> get_cell q f t = Some l0 -> accepts (dwin fd w) l0 (cargs q (win_deps w) t) = true).
 Proof.
-  intros (Hq & Hr & Hc & Hb) Efd.
+  intros (Hq & Hr & Hc) Efd.
   pose proof (design_lt f fd Efd) as Hf. pose proof (nlevels_design f fd Efd) as Hnl.
   unfold factor_ok. change (s_trials (code_sem fb)) with (T fb).
   rewrite (Hr f Hf), Nat.eqb_refl, andb_true_l, forallb_forall. split.
@@ -179,19 +187,26 @@ Proof.
     rewrite (window_args_f1 q f fd w t H1). apply (H w eq_refl t l0); [lia|exact El0].
 Qed.
 
+Lemma factor_ok_f1 s q f fd :
+  onehot fb s q -> nth_error (fl_design fb) f = Some fd ->
+  (factor_ok (code_sem fb) q f (code_factor fb f fd) = true <->
+   forall w, ff_window fd = Some w ->
+   forall t l0, t < T fb -> get_cell q f t = Some l0 -> accepts (dwin fd w) l0 (cargs q (win_deps w) t) = true).
+Proof. intros Ho. apply factor_ok_shape. exact (onehot_shape s q Ho). Qed.
+
 (** * The grid variable of a level is the cell test *)
 Lemma eval_gridvar s q t f l :
-  onehot fb s q -> t < T fb -> f < nf fb -> l < nlevels fb f ->
+  onehot fb s q -> t < T fb -> isact fb f = true -> l < nlevels fb f ->
   eval s (fv (off fb f + l + t * vpt fb + 1)) = is_level l (get_cell q f t).
 Proof.
-  intros (_ & _ & _ & Hb) Ht Hf Hl. rewrite <- (Hb t f l Ht Hf Hl). unfold bit, fv, zn. cbn [eval].
+  intros (_ & _ & _ & Hb & _) Ht Hf Hl. rewrite <- (Hb t f l Ht Hf Hl). unfold bit, fv, zn. cbn [eval].
   replace (off fb f + l + t * vpt fb + 1) with (gvar fb t f l) by (unfold gvar; lia).
   apply lit_true_pos. pose proof (gvar_pos fb HF1 HT t f l). lia.
 Qed.
 
 (** key lemma A: the conjunction generated for a table entry tests the window arguments *)
 Lemma entry_eval s q t deps : forall entry,
-  onehot fb s q -> t < T fb -> Forall (fun d => d < nf fb) deps -> entry_ok fb deps entry = true ->
+  onehot fb s q -> t < T fb -> Forall (fun d => isact fb d = true) deps -> entry_ok fb deps entry = true ->
   forallb (eval s) (map (fun x => match x with DIdx i => fv (i + t * vpt fb + 1) | DBefore _ => fv 0 end)
                         (entry_deps fb deps entry))
   = args_eqb (cargs q deps t) entry.
@@ -207,7 +222,7 @@ Qed.
 
 (** key lemma B: what the Iff's of one derived level say *)
 Lemma pderiv_char s q f l deps entries :
-  onehot fb s q -> f < nf fb -> l < nlevels fb f -> Forall (fun dd => dd < nf fb) deps ->
+  onehot fb s q -> isact fb f = true -> l < nlevels fb f -> Forall (fun dd => isact fb dd = true) deps ->
   (forall entry, In entry entries -> entry_ok fb deps entry = true) ->
   (Pderiv fb (off fb f + l) (map (entry_deps fb deps) entries) s <->
    forall t, t < T fb -> is_level l (get_cell q f t) = existsb (args_eqb (cargs q deps t)) entries).
@@ -258,40 +273,45 @@ Proof.
     apply IH; [|exact He]. intros e Hin. apply Hd. now right.
 Qed.
 
-Lemma accepts_level_accepts s q f fd w t l :
-  onehot fb s q -> nth_error (fl_design fb) f = Some fd -> ff_window fd = Some w -> t < T fb ->
+Lemma accepts_level_accepts_shape q f fd w t l :
+  shape q -> nth_error (fl_design fb) f = Some fd -> ff_window fd = Some w -> t < T fb ->
   accepts (dwin fd w) l (cargs q (win_deps w) t) = level_accepts fd l (map (lev q t) (win_deps w)).
 Proof.
-  intros (Hq & Hr & Hc & Hb) Efd Ew Ht. pose proof (design_lt f fd Efd) as Hf.
+  intros (Hq & Hr & Hc) Efd Ew Ht. pose proof (design_lt f fd Efd) as Hf.
   destruct (f1_tables_facts f fd w Efd Ew) as [Hlt Hent].
   rewrite accepts_level. unfold level_accepts. destruct (nth_error (ff_levels fd) l) as [lv|] eqn:Elv; [|reflexivity].
   apply existsb_ext_in_ds. intros entry Hentry. apply args_entry_matches.
   - intros d Hd. pose proof (proj1 (Forall_forall _ _) Hlt d Hd) as Hdf. cbv beta in Hdf.
-    destruct (Hc t d Ht ltac:(lia)) as (x & _ & Ex). now exists x.
+    destruct (Hc t d Ht (f1_act_lt fb HF1 d Hdf)) as (x & _ & Ex). now exists x.
   - apply (Hent lv entry); [eapply nth_error_In; exact Elv|exact Hentry].
 Qed.
 
-(** no two levels accept the arguments of a trial *)
-Lemma accepts_unique s q f fd w t l l0 :
+Lemma accepts_level_accepts s q f fd w t l :
   onehot fb s q -> nth_error (fl_design fb) f = Some fd -> ff_window fd = Some w -> t < T fb ->
+  accepts (dwin fd w) l (cargs q (win_deps w) t) = level_accepts fd l (map (lev q t) (win_deps w)).
+Proof. intros Ho. apply accepts_level_accepts_shape. exact (onehot_shape s q Ho). Qed.
+
+(** no two levels accept the arguments of a trial *)
+Lemma accepts_unique_shape q f fd w t l l0 :
+  shape q -> nth_error (fl_design fb) f = Some fd -> ff_window fd = Some w -> t < T fb ->
   accepts (dwin fd w) l (cargs q (win_deps w) t) = true ->
   accepts (dwin fd w) l0 (cargs q (win_deps w) t) = true -> l = l0.
 Proof.
   intros Ho Efd Ew Ht A1 A2.
-  rewrite (accepts_level_accepts s q f fd w t l Ho Efd Ew Ht) in A1.
-  rewrite (accepts_level_accepts s q f fd w t l0 Ho Efd Ew Ht) in A2.
+  rewrite (accepts_level_accepts_shape q f fd w t l Ho Efd Ew Ht) in A1.
+  rewrite (accepts_level_accepts_shape q f fd w t l0 Ho Efd Ew Ht) in A2.
   destruct (Nat.eq_dec l l0) as [E|N]; [exact E|exfalso].
   assert (B : forall k, level_accepts fd k (map (lev q t) (win_deps w)) = true -> k < length (ff_levels fd)).
   { intros k Hk. unfold level_accepts in Hk. apply nth_error_Some. destruct (nth_error (ff_levels fd) k); [discriminate|discriminate Hk]. }
   pose proof (B l A1) as L1. pose proof (B l0 A2) as L2.
   destruct (f1_tables fb FF f fd Efd) as [_ Hun]. unfold tables_unambiguous in Hun. rewrite Ew in Hun.
   rewrite forallb_forall in Hun. specialize (Hun (map (lev q t) (win_deps w))).
-  destruct Ho as (Hq & Hr & Hc & Hb). pose proof (design_lt f fd Efd) as Hf.
+  destruct Ho as (Hq & Hr & Hc). pose proof (design_lt f fd Efd) as Hf.
   destruct (f1_tables_facts f fd w Efd Ew) as [Hlt _].
   assert (Hin : In (map (lev q t) (win_deps w)) (product (map (fun d => seq 0 (nlevels fb d)) (win_deps w)))).
   { apply (in_product_map_ds (lev q t) (nlevels fb)). intros d Hd.
     pose proof (proj1 (Forall_forall _ _) Hlt d Hd) as Hdf. cbv beta in Hdf.
-    destruct (Hc t d Ht ltac:(lia)) as (x & Hx & Ex). unfold lev. now rewrite Ex. }
+    destruct (Hc t d Ht (f1_act_lt fb HF1 d Hdf)) as (x & Hx & Ex). unfold lev. now rewrite Ex. }
   specialize (Hun Hin). apply Nat.leb_le in Hun.
   pose proof (filter_two_ds (fun k => level_accepts fd k (map (lev q t) (win_deps w))) (seq 0 (length (ff_levels fd))) l l0
                 (seq_NoDup _ _) (proj2 (in_seq _ _ _) (conj (Nat.le_0_l _) L1))
@@ -299,16 +319,22 @@ Proof.
   lia.
 Qed.
 
+Lemma accepts_unique s q f fd w t l l0 :
+  onehot fb s q -> nth_error (fl_design fb) f = Some fd -> ff_window fd = Some w -> t < T fb ->
+  accepts (dwin fd w) l (cargs q (win_deps w) t) = true ->
+  accepts (dwin fd w) l0 (cargs q (win_deps w) t) = true -> l = l0.
+Proof. intros Ho. apply accepts_unique_shape. exact (onehot_shape s q Ho). Qed.
+
 (** * The converse of [deriv_shape]: every derived level has its Derivation *)
 Lemma deriv_exists f fd w l :
-  nth_error (fl_design fb) f = Some fd -> ff_window fd = Some w -> l < length (ff_levels fd) ->
+  nth_error (fl_design fb) f = Some fd -> ff_window fd = Some w -> isact fb f = true -> l < length (ff_levels fd) ->
   exists lv, nth_error (ff_levels fd) l = Some lv /\
     In (FDerivation (off fb f + l) (map (entry_deps fb (win_deps w)) (lv_accepts lv)) f) (fl_constraints fb).
 Proof.
-  intros Efd Ew Hl. pose proof (f1_derivations fb FF) as HD.
+  intros Efd Ew Hact Hl. pose proof (f1_derivations fb FF) as HD.
   unfold derivations_match in HD. apply andb_true_iff in HD. destruct HD as [HD1 _].
   rewrite forallb_forall in HD1. specialize (HD1 (f, fd) (nth_error_combine_seq (fl_design fb) 0 f fd Efd)).
-  cbn beta iota in HD1. rewrite Ew in HD1. rewrite forallb_forall in HD1.
+  cbn beta iota in HD1. cbn [fst snd] in HD1. rewrite Hact in HD1. cbn [negb orb] in HD1. rewrite Ew in HD1. rewrite forallb_forall in HD1.
   specialize (HD1 l (proj2 (in_seq _ _ _) (conj (Nat.le_0_l _) Hl))).
   apply existsb_exists in HD1. destruct HD1 as (c & Hc & HD1).
   unfold is_derivation_of in HD1. destruct c as [| | |d deps f'| | | | | | | | | | | | |]; try discriminate HD1.
@@ -317,7 +343,7 @@ Proof.
   destruct (first_variable_for_level fb f l) as [v|] eqn:Ev; [|discriminate].
   rewrite !andb_true_iff in HD1. destruct HD1 as [[Hf' Hd] _]. apply Nat.eqb_eq in Hf', Hd. subst f' d.
   pose proof (design_lt f fd Efd) as Hf. pose proof (nlevels_design f fd Efd) as Hnl.
-  rewrite (f1_first_var fb HF1 f l Hf ltac:(lia)) in Ev. inversion Ev. subst v.
+  rewrite (f1_first_var fb HF1 f l Hact ltac:(lia)) in Ev. inversion Ev. subst v.
   destruct (deriv_shape fb HF1 HT _ _ _ Hc) as (fd' & w' & l' & lv' & Efd' & Ew' & Elv' & _ & Hl' & Hd' & Hdeps' & _).
   assert (fd' = fd) by congruence. subst fd'. assert (w' = w) by congruence. subst w'.
   assert (l' = l) by lia. subst l'. assert (lv' = lv) by congruence. subst lv'.
@@ -330,7 +356,7 @@ Theorem factors_sem s q :
   ((forall d deps f, In (FDerivation d deps f) (fl_constraints fb) -> Pderiv fb d deps s) <->
    forallb (fun p => factor_ok (code_sem fb) q (fst p) (snd p)) (index_list (s_factors (code_sem fb))) = true).
 Proof.
-  intros Ho. pose proof Ho as (Hq & Hr & Hc & Hb).
+  intros Ho. pose proof Ho as (Hq & Hr & Hc & Hb & Himp).
   change (s_factors (code_sem fb))
     with (map (fun p => code_factor fb (fst p) (snd p)) (combine (seq 0 (length (fl_design fb))) (fl_design fb))).
   rewrite (forallb_index_map_ds (code_factor fb) (factor_ok (code_sem fb) q) (fl_design fb)).
@@ -338,21 +364,28 @@ Proof.
   - intros H f fd Efd. apply (factor_ok_f1 s q f fd Ho Efd). intros w Ew t l0 Ht El0.
     pose proof (design_lt f fd Efd) as Hf. pose proof (nlevels_design f fd Efd) as Hnl.
     destruct (Hc t f Ht Hf) as (l1 & Hl1 & El1). rewrite El0 in El1. inversion El1. subst l1.
-    destruct (deriv_exists f fd w l0 Efd Ew ltac:(lia)) as (lv & Elv & Hin).
     destruct (f1_tables_facts f fd w Efd Ew) as [Hlt Hent].
-    specialize (H _ _ _ Hin).
-    assert (Hd : Forall (fun dd => dd < nf fb) (win_deps w)).
-    { eapply Forall_impl; [|exact Hlt]. intros dd Hdd. cbv beta in Hdd. lia. }
-    assert (He : forall entry, In entry (lv_accepts lv) -> entry_ok fb (win_deps w) entry = true).
-    { intros entry Hentry. apply (Hent lv entry); [eapply nth_error_In; exact Elv|exact Hentry]. }
-    pose proof (proj1 (pderiv_char s q f l0 (win_deps w) (lv_accepts lv) Ho Hf Hl1 Hd He) H) as H'.
-    rewrite accepts_level, Elv, <- (H' t Ht), El0. unfold is_level. cbn [cell_eqb]. apply Nat.eqb_refl.
+    destruct (isact fb f) eqn:Hact.
+    + destruct (deriv_exists f fd w l0 Efd Ew Hact ltac:(lia)) as (lv & Elv & Hin).
+      specialize (H _ _ _ Hin).
+      assert (He : forall entry, In entry (lv_accepts lv) -> entry_ok fb (win_deps w) entry = true).
+      { intros entry Hentry. apply (Hent lv entry); [eapply nth_error_In; exact Elv|exact Hentry]. }
+      pose proof (proj1 (pderiv_char s q f l0 (win_deps w) (lv_accepts lv) Ho Hact Hl1 Hlt He) H) as H'.
+      rewrite accepts_level, Elv, <- (H' t Ht), El0. unfold is_level. cbn [cell_eqb]. apply Nat.eqb_refl.
+    + rewrite (accepts_level_accepts s q f fd w t l0 Ho Efd Ew Ht).
+      pose proof (Himp t f Ht Hf Hact) as Hcell. rewrite El0 in Hcell. unfold cell_impl, factor_at in Hcell.
+      rewrite Efd, Ew in Hcell. symmetry in Hcell.
+      destruct (find_in_range fb HF1 HT _ _ _ Hcell) as [_ Hacc].
+      replace (map (lev q t) (win_deps w)) with (impl_args fb s t w); [exact Hacc|].
+      unfold impl_args. apply map_ext_in. intros d Hd.
+      pose proof (proj1 (Forall_forall _ _) Hlt d Hd) as Hda. cbv beta in Hda.
+      unfold lev. rewrite (onehot_cell_act fb HF1 s q t d Ho Ht Hda). reflexivity.
   - intros H d deps f Hin.
     destruct (deriv_shape fb HF1 HT d deps f Hin) as (fd & w & l & lv & Efd & Ew & Elv & Hf & Hl & -> & -> & Hlt & Hent).
     apply (pderiv_char s q f l (win_deps w) (lv_accepts lv) Ho Hf Hl).
-    + eapply Forall_impl; [|exact Hlt]. intros dd Hdd. cbv beta in Hdd. lia.
+    + exact Hlt.
     + intros entry Hentry. exact (proj1 (Forall_forall _ _) Hent entry Hentry).
-    + intros t Ht. destruct (Hc t f Ht Hf) as (l0 & Hl0 & El0). rewrite El0.
+    + intros t Ht. destruct (Hc t f Ht (f1_act_lt fb HF1 f Hf)) as (l0 & Hl0 & El0). rewrite El0.
       pose proof (proj1 (factor_ok_f1 s q f fd Ho Efd) (H f fd Efd) w Ew t l0 Ht El0) as Hacc.
       unfold is_level. cbn [cell_eqb]. destruct (l0 =? l) eqn:E.
       * apply Nat.eqb_eq in E. subst l0. rewrite accepts_level, Elv in Hacc. now symmetry.
